@@ -152,14 +152,23 @@ def gen_placed_dtor(r):
 
 
 def gen_overflow(r):
-    """boundary case: more ring-path submissions to the same ring than its capacity while the workers are kept from popping
-    (producer first), so that try_push fails and the central-queue fallback is exercised; optionally a resize or an early destructor"""
-    n0 = r.choice([1, 2, 3, 4])
-    k = r.choice([1, n0])
-    ops = ['t%d' % k] * r.choice([17, 18, 20])
+    """boundary case: more ring-path submissions to ring 0 than its capacity while the workers are kept from popping (producers run
+    first; several task sets, because one set stops using the ring path beyond its load factor 4 * threads), so that try_push fails and
+    the central-queue fallback is exercised; optionally an early destructor"""
+    n0 = r.choice([2, 3, 4])
+    progs = [['t1'] * 9 for _ in range(3)]
     if r.random() < 0.4:
-        ops.insert(r.randrange(10, len(ops)), 'r%d' % r.choice([1, 2, 3]))
-    return {'n0': n0, 'budget': 4000, 'finalq': r.choice([0, 1, 1]), 'progs': [ops], 'sched': [0] * r.choice([40, 80, 160]) + bursts(r, 40)}
+        progs[2].append('r%d' % r.choice([1, 2, 3]))
+    return {'n0': n0, 'budget': 5000, 'finalq': r.choice([0, 1, 1]), 'progs': progs, 'sched': [0] * r.choice([200, 240]) + bursts(r, 40)}
+
+
+def gen_batched(r):
+    """boundary case: a shrink completes between scheduleBulkToRings' workRemaining_ add and its numRings_ load: count > ringCount, so
+    the batched path (try_push_batch, several tasks per ring) is taken"""
+    n0 = r.choice([3, 4, 5])
+    m = r.randrange(1, n0)
+    return {'n0': n0, 'budget': 2500, 'finalq': r.choice([0, 1]), 'progs': [['t%d' % n0] + [r.choice(['s0', 'f0', 't%d' % m])], ['r%d' % m]],
+            'sched': [0] + [1] * 60 + bursts(r, 60)}
 
 
 def line_of(c):
@@ -186,7 +195,7 @@ def run_pool(ctx, prop):
     ctx.phase('build')
     r = ctx.rng
     n = 300 if ctx.quick else 6000
-    cases = list(WITNESSES) + [gen_overflow(r) if i % 25 == 3 else gen_placed_dtor(r) if i % 25 in (7, 17) else gen_case(r) for i in range(n)]
+    cases = list(WITNESSES) + [gen_overflow(r) if i % 50 == 3 else gen_batched(r) if i % 25 == 13 else gen_placed_dtor(r) if i % 25 in (7, 17) else gen_case(r) for i in range(n)]
     outs = ls_common.run_cases(exe, [line_of(c) for c in cases], jobs=10)
     ctx.phase('run')
     kept, terms = [], []
@@ -271,6 +280,9 @@ def report(ctx, prop, rows, describe):
     ctx.cov['pool_size_histogram'] = {str(k): sum(1 for c, _, _, _ in rows if c['n0'] == k) for k in range(6)}
     ctx.cov['cases_with_resize'] = sum(1 for c, _, _, _ in rows if any(o[0] == 'r' for pr in c['progs'] for o in pr))
     ctx.cov['cases_with_ring_fastpath'] = sum(1 for _, p, _, _ in rows if any(e[1] == 'pool.load.numRings' for e in p['events']))
-    ctx.cov['cases_with_ring_overflow_fallback'] = sum(1 for _, p, _, _ in rows if any(e[1] in ('pool.ring.push',) or (e[1] == 'pool.ring.push_batch') for e in p['events']))
+    ctx.cov['cases_with_ring_overflow_fallback'] = sum(1 for _, p, _, _ in rows if any(e[1] == 'pool.ring.push' for e in p['events']))
+    ctx.cov['cases_with_batched_ring_push'] = sum(1 for _, p, _, _ in rows if any(e[1] == 'pool.ring.push_batch' for e in p['events']))
+    ctx.cov['cases_with_steal_ring_push'] = sum(1 for _, p, _, _ in rows if any(e[1] == 'pool.steal.push' and e[3] == 1 for e in p['events']))
+    ctx.cov['cases_with_dtor_drain_pop'] = sum(1 for _, p, _, _ in rows if any(e[1] in ('pool.drain.ring', 'pool.drain.steal') and e[3] == 1 for e in p['events']))
     for c, p, o, v in rows[:2]:
         ctx.sample({'case': line_of(c)[:160], 'impl': o[:300], 'judge': v})
